@@ -26,6 +26,8 @@ import (
 	"sync"
 	"time"
 
+	"github.com/go-sql-driver/mysql"
+
 	"seata.apache.org/seata-go/pkg/datasource/sql/types"
 	"seata.apache.org/seata-go/pkg/datasource/sql/xa"
 	"seata.apache.org/seata-go/pkg/tm"
@@ -510,6 +512,20 @@ func (c *XAConn) XaRollbackByBranchId(ctx context.Context, xaXid XAXid) error {
 
 func (c *XAConn) XaRollback(ctx context.Context, xaXid XAXid) error {
 	err := c.xaResource.Rollback(ctx, xaXid.String())
+	if !c.transient && isXaerNota(err) {
+		// this is the connection the branch was registered on and the application is through with it, yet the
+		// database does not know the branch: the application rolled it back itself after a failed statement.
+		// There is nothing left to roll back, and the connection must not stay held for a branch that is gone.
+		// (On a transient connection the same answer proves nothing: the request may have overtaken XA START.)
+		log.Infof("xa branch %s is unknown to the database, nothing to roll back", xaXid.String())
+		err = nil
+	}
 	c.afterSecondPhase(err)
 	return err
+}
+
+// isXaerNota reports MySQL's XAER_NOTA (1397): unknown XID
+func isXaerNota(err error) bool {
+	var mysqlErr *mysql.MySQLError
+	return errors.As(err, &mysqlErr) && mysqlErr.Number == 1397
 }
